@@ -746,7 +746,7 @@ func runDisputeHistory(t *testing.T, seed int64) (string, map[string]int, string
 		first = pick(r, bquo(full, bi(int64(2+r.Intn(3)))), bquo(bmul(full, bi(96)), bi(100)), bsub(full, bi(1)), bquo(bmul(full, bi(95)), bi(100)),
 			bsub(full, bi(7)), bsub(full, bi(13)), bquo(full, bi(3)))
 	}
-	rounds := pick(r, 1, 1, 2, 3)
+	rounds := pick(r, 1, 2, 2, 3)
 	if v := os.Getenv("HIST_ROUNDS"); v != "" {
 		fmt.Sscan(v, &rounds)
 	}
@@ -821,6 +821,9 @@ func runDisputeHistory(t *testing.T, seed int64) (string, map[string]int, string
 					payer := pick(r, proposer, nVals+3, nVals+3)
 					if payer == proposer && proposer != 1 {
 						payer = 1 // two different payers
+					}
+					if proposer == 1 && fromBond && r.Intn(2) == 0 {
+						payer = 1 // the same reporter pays the rest from its balance after a first payment from stake
 					}
 					if mixedPay {
 						payer = 1
@@ -1073,7 +1076,7 @@ func TestHistDisputes(t *testing.T) {
 		out.Emit(Case{Coq: term, Kind: kind, Nontrivial: true, Key: "corpus:C13b-halt", Tags: []string{"corpus:C13b"},
 			Human: map[string]interface{}{"history": "corpus: 2505 one-loya fee payments from the stake of a reporter with three selectors, dispute decided AGAINST", "ops": stats, "halted": halted}})
 	}
-	n := count(40, 1000)
+	n := count(60, 1000)
 	base := seed()*9_000_011 + 29
 	for i := 0; i < n; i++ {
 		hs := base + int64(i)
